@@ -144,12 +144,15 @@ fn final_edits(spec: &Value) -> BTreeMap<String, (usize, i64, String)> {
     m
 }
 
+/// Reference runs use one fixed hash seed: the oracle compares canonically sorted diagnostics,
+/// and a reference is then shared by all runs that end in the same (uri, version, text, k).
+const REF_HASH_SEED: u64 = 0x5EED;
+
 fn ref_key(uri: &str, version: i64, text: &str, spec: &Value) -> String {
     format!(
-        "{uri}|{version}|{}|{}|{}|{}",
+        "{uri}|{version}|{}|{}|{}",
         simcore::fnv_hex(text.as_bytes()),
         spec["max_k"],
-        spec["hash_seed"],
         simcore::fnv_hex(spec["init"].to_string().as_bytes())
     )
 }
@@ -342,7 +345,7 @@ fn needed_refs(spec: &Value) -> Vec<(String, Value)> {
         .map(|(uri, (_, version, text))| {
             (
                 ref_key(&uri, version, &text, spec),
-                reference_spec(&uri, version, &text, spec["max_k"].as_u64().unwrap_or(3), spec["hash_seed"].as_u64().unwrap_or(1), &spec["init"]),
+                reference_spec(&uri, version, &text, spec["max_k"].as_u64().unwrap_or(3), REF_HASH_SEED, &spec["init"]),
             )
         })
         .collect()
@@ -1056,6 +1059,7 @@ fn main() {
     let mut replay_file: Option<PathBuf> = None;
     let mut emit_log: Option<PathBuf> = None;
     let mut selfcheck = false;
+    let mut dump_run: Option<usize> = None;
     let mut i = 1;
     while i < args.len() {
         match args[i].as_str() {
@@ -1080,6 +1084,10 @@ fn main() {
                 emit_log = args.get(i).map(PathBuf::from);
             }
             "--selfcheck" => selfcheck = true,
+            "--dump-run" => {
+                i += 1;
+                dump_run = args.get(i).and_then(|s| s.parse().ok());
+            }
             other => harness_error(&format!("unknown argument {other}")),
         }
         i += 1;
@@ -1101,6 +1109,13 @@ fn main() {
     }
     let mut corpus = workload::load_corpus(2500);
     classify(&pool, &mut corpus);
+    if let Some(r) = dump_run {
+        // debugging aid: print spec and record of one run of the batch
+        let specs = gen_specs(&property, simcore::env_seed(), tier, &corpus, r + 1);
+        let rec = pool.run(std::slice::from_ref(&specs[r])).pop().unwrap();
+        println!("{}", serde_json::to_string(&json!({"spec": specs[r], "record": rec})).unwrap());
+        std::process::exit(0);
+    }
     let code = run_batch(&ctx, tier, &corpus, emit_log.as_deref());
     std::process::exit(code);
 }
